@@ -36,7 +36,7 @@ TRUSTED_BASE = [
 
 
 def _worker(args):
-    key, tier = args
+    key, tier, chunk, nchunks = args
     from . import verify, solve
     G = _worker.G
     I, DB, repo = G["I"], G["DB"], G["repo"]
@@ -58,7 +58,7 @@ def _worker(args):
         for f in res.requires_formula:
             s.add(f)
         out["requires_sat"] = str(s.check())
-    timeout = 20000 if tier == "quick" else 120000
+    timeout = 60000 if tier == "quick" else 240000
     all_obligations = list(res.obligations)
     if res.error is None:
         bc, bfi = verify.find_base_contract(I, c, fi)
@@ -68,19 +68,23 @@ def _worker(args):
                 out["error"] = rres.error
             all_obligations += rres.obligations
             out["refines"] = bc.key
+    out["chunk"] = (chunk, nchunks)
+    out["n_generated"] = len(all_obligations)
     for i, ob in enumerate(all_obligations):
+        if i % nchunks != chunk:
+            continue
         rec = {"name": ob.name, "kind": ob.meta.get("kind"), "props": list(ob.meta.get("props") or c.props),
                "clause": ob.meta.get("clause"), "path": ob.meta.get("path"), "func": key, "trail": ob.meta.get("trail") or []}
         if ob.meta.get("trivial"):
             rec.update(status="unsat", backend="simplifier", seconds=0.0)
         else:
             try:
-                r = solve.decide(ob, res.str_axioms, timeout, True)
+                r = solve.decide(ob, res.str_axioms, timeout, True, want_smt2=(i < 1))
                 rec.update(status=r[1], backend=r[2], seconds=r[3], model=r[4], tried=r[5])
-                if r[1] != "unsat" or i < 1:
+                if (r[1] != "unsat" or i < 1) and r[6]:
                     rec["smt2"] = r[6] if len(r[6]) < 60000 else r[6][:60000] + "\n; ... truncated"
                 if tier == "thorough" and r[1] == "unsat":
-                    r2 = solve._solve_cvc5(r[6], 60)
+                    r2 = solve._solve_cvc5(r[6] or solve.build_full(ob, res.str_axioms), 60)
                     rec["second_solver"] = r2[0]
             except Exception as e:
                 rec.update(status="error", backend="-", seconds=0.0, error="%s\n%s" % (e, traceback.format_exc()))
@@ -180,10 +184,38 @@ def main(argv=None):
     _worker.G = {"I": I, "DB": DB, "repo": repo}
     results = []
     if verify_keys:
+        # big functions are split into chunks of obligations (each chunk re-generates the function's obligations, which is
+        # cheap compared with discharging them); the obligation counts of the last run only steer the scheduling
+        try:
+            sizes = json.load(open(os.path.join(ROOT, "contracts", "SIZES.json")))
+        except Exception:
+            sizes = {}
+        jobs = []
+        for k in verify_keys:
+            n = sizes.get(k, 40)
+            nch = max(1, min(12, (n + 39) // 40))
+            jobs += [(k, tier, c, nch) for c in range(nch)]
+        jobs.sort(key=lambda j: -sizes.get(j[0], 40))
         ctx = mp.get_context("fork")
-        with ctx.Pool(processes=max(1, min(a.jobs, len(verify_keys)))) as pool:
-            for r in pool.imap_unordered(_worker, [(k, tier) for k in verify_keys], chunksize=1):
-                results.append(r)
+        parts = {}
+        with ctx.Pool(processes=max(1, min(a.jobs, len(jobs)))) as pool:
+            for r in pool.imap_unordered(_worker, jobs, chunksize=1):
+                parts.setdefault(r["key"], []).append(r)
+        for k, ps in parts.items():
+            ps.sort(key=lambda r: r["chunk"][0])
+            base = ps[0]
+            for p in ps[1:]:
+                base["obligations"] += p["obligations"]
+                base["error"] = base["error"] or p["error"]
+                base["seconds"] = max(base.get("seconds", 0), p.get("seconds", 0))
+            if not base["error"] and len(base["obligations"]) != base.get("n_generated"):
+                base["error"] = "crash: chunks cover %d of %d obligations" % (len(base["obligations"]), base.get("n_generated"))
+            results.append(base)
+        new_sizes = dict(sizes)
+        for r in results:
+            new_sizes[r["key"]] = r.get("n_generated", len(r["obligations"]))
+        if os.environ.get("PYVC_WRITE_SIZES"):
+            json.dump(new_sizes, open(os.path.join(ROOT, "contracts", "SIZES.json"), "w"), indent=0, sort_keys=True)
     results.sort(key=lambda r: r["key"])
     # property-level lemmas (pure SMT over the contracts)
     lemma_results = props_mod.run_lemmas(prop, tier)
